@@ -421,5 +421,6 @@ func Run(file string, seed int64, concretisations int) (*Report, error) {
 	if len(cvecs) > 0 {
 		rep.Samples = append(rep.Samples, cvecs[0])
 	}
+	RunChannelConc(rep)
 	return rep, sc.Err()
 }
